@@ -205,57 +205,6 @@ Fixpoint all_admissible (fixed : bool) (s : st) (ops : list op) : bool :=
   end.
 
 (** ------------------------------------------------------------------------------------------------------------
-    History-based discipline (what a user can check on the program text): at most one open File per path, no
-    operation other than close on a File after move/unlink through it, no move onto an existing path or a path
-    another File is open on.  [stale] lists the slots whose File was moved/unlinked. *)
-Definition path_open (p : Z) (stale : list Z) (hs : list (Z * handle)) : bool :=
-  existsb (fun sh => (hpath (snd sh) =? p) && negb (existsb (Z.eqb (fst sh)) stale)) hs.
-
-Definition disciplined_step (s : st) (stale : list Z) (o : op) : bool :=
-  match o with
-  | Open slot path =>
-      match hget slot (hs s) with Some _ => true | None => negb (path_open path stale (hs s)) end
-  | Close _ => true
-  | _ =>
-      match hget (slot_of o) (hs s) with
-      | None => true
-      | Some h =>
-          negb (existsb (Z.eqb (slot_of o)) stale) &&
-          match o with
-          | Move _ path =>
-              (path <? 0) || (path =? hpath h)
-              || (match lookup path (content s) with None => true | Some _ => false end
-                  && negb (path_open path stale (hs s)))
-          | _ => true
-          end
-      end
-  end.
-
-Definition stale_after (s : st) (stale : list Z) (o : op) : list Z :=
-  match o with
-  | Open slot _ => match hget slot (hs s) with Some _ => stale | None => filter (fun t => negb (t =? slot)) stale end
-  | Close slot => filter (fun t => negb (t =? slot)) stale
-  | Move slot path =>
-      match hget slot (hs s) with
-      | Some h => if (path <? 0) || (path =? hpath h) then stale else slot :: stale
-      | None => stale
-      end
-  | Unlink slot => match hget slot (hs s) with Some _ => slot :: stale | None => stale end
-  | _ => stale
-  end.
-
-Fixpoint disciplined (fixed : bool) (s : st) (stale : list Z) (ops : list op) : bool :=
-  match ops with
-  | [] => true
-  | o :: r =>
-      disciplined_step s stale o &&
-      match step fixed s o with
-      | Some (s', _) => disciplined fixed s' (stale_after s stale o) r
-      | None => true
-      end
-  end.
-
-(** ------------------------------------------------------------------------------------------------------------
     Observation of one step, as the driver prints it for the real code, and the oracle that judges it.
     record = [code; n; res; hsize_b; pos_b; fsize_b; used_b; total_b; hsize_a; pos_a; used_a; total_a]
     (hsize/pos = -1 when the slot holds no File; fsize_b = size of the File's path in the content map, -1 if absent) *)
